@@ -8,10 +8,14 @@ import (
 	"context"
 	"encoding/json"
 	"fmt"
+	"github.com/transparency-dev/witness/internal/verif/kit/refnote"
+	"github.com/transparency-dev/witness/internal/verif/kit/reftree"
+	"github.com/transparency-dev/witness/internal/verif/kit/stubs"
 	"io"
 	"net/http"
 	"os"
 	"strings"
+	"sync"
 	"time"
 
 	f_note "github.com/transparency-dev/formats/note"
@@ -49,6 +53,11 @@ type Case struct {
 	Desc       string
 	DeadlineMS int
 	PollMS     int // > 0: run the feeder as a polling loop with this interval until the deadline
+	// LongPoll > 0: instead of canned answers, an HONEST log (Kind sumdb or tiles) that grows by a few hundred
+	// leaves at every checkpoint fetch is followed by the polling feeder for this many growth steps: a long
+	// process lifetime made of valid responses only.
+	LongPoll int
+	Seed     uint64
 }
 
 type server struct{ c *Case }
@@ -130,6 +139,9 @@ func main() {
 }
 
 func runCase(c *Case) string {
+	if c.LongPoll > 0 {
+		return longPoll(c)
+	}
 	logV, err := f_note.NewVerifier(c.Vkey)
 	if err != nil {
 		return "harness: bad vkey " + err.Error()
@@ -175,4 +187,84 @@ func runCase(c *Case) string {
 	}
 	err = f.FeedFunc()(ctx, cl, bw, client, 0)
 	return fmt.Sprintf("returned err=%v", err)
+}
+
+// growing serves an honest log whose size grows at every checkpoint fetch until the target number of steps.
+type growing struct {
+	l     *stubs.TileLog
+	mu    sync.Mutex
+	steps int
+	max   int
+	size  uint64
+	done  chan struct{}
+}
+
+func (g *growing) RoundTrip(q *http.Request) (*http.Response, error) {
+	if strings.HasSuffix(q.URL.Path, "/latest") || strings.HasSuffix(q.URL.Path, "/checkpoint") {
+		g.mu.Lock()
+		if g.steps < g.max {
+			g.steps++
+			g.size += 257 + uint64(g.steps*7%300)
+			g.l.Publish(nil, g.size)
+		} else if g.steps == g.max {
+			g.steps++
+			close(g.done)
+		}
+		g.mu.Unlock()
+	}
+	return g.l.RoundTrip(q)
+}
+
+func longPoll(c *Case) string {
+	sumdb := c.Kind == "sumdb"
+	var seed [32]byte
+	seed[0], seed[1] = byte(c.Seed), byte(c.Seed>>8)
+	key := refnote.NewSignKey("longpoll.example", seed)
+	origin := "longpoll.example/log"
+	if sumdb {
+		origin = "go.sum database tree"
+	}
+	tree := &reftree.Tree{Seed: c.Seed, TagA: 1, TagB: 1, Fork: ^uint64(0)}
+	tl := stubs.NewTileLog(origin, key, tree, sumdb)
+	g := &growing{l: tl, max: c.LongPoll, size: 70000 + c.Seed%1000, done: make(chan struct{})}
+	tl.Publish(nil, g.size)
+	cl, err := config.NewLog(origin, key.Vkey(), "http://longpoll.stub")
+	if err != nil {
+		return "harness: " + err.Error()
+	}
+	logV, _ := f_note.NewVerifier(key.Vkey())
+	legacy, _ := note.NewSigner(c.Skey)
+	v1, _ := f_note.NewSignerForCosignatureV1(c.Skey)
+	w, err := witness.New(witness.Opts{Persistence: inmemory.NewPersistence(), Signers: []note.Signer{legacy, v1},
+		KnownLogs: map[string]witness.LogInfo{cl.ID: {SigV: logV, Origin: origin, Hasher: rfc6962.DefaultHasher}}})
+	if err != nil {
+		return "harness: " + err.Error()
+	}
+	f, err := omniwitness.ParseFeeder(c.Kind)
+	if err != nil {
+		return "harness: " + err.Error()
+	}
+	ctx, cancel := context.WithTimeout(context.Background(), time.Duration(c.DeadlineMS)*time.Millisecond)
+	defer cancel()
+	go func() {
+		select {
+		case <-g.done:
+			time.Sleep(100 * time.Millisecond)
+			cancel() // every growth step has been published and one more poll made
+		case <-ctx.Done():
+		}
+	}()
+	err = f.FeedFunc()(ctx, cl, omniwitness.VerifWitnessAdapter(w), &http.Client{Transport: g, Timeout: 5 * time.Second}, 15*time.Millisecond)
+	size := uint64(0)
+	if raw, gerr := w.GetCheckpoint(cl.ID); gerr == nil {
+		if n, perr := refnote.Parse(raw); perr == nil {
+			if cp, cerr := refnote.ParseCheckpoint(n.Text); cerr == nil {
+				size = cp.Size
+			}
+		}
+	}
+	g.mu.Lock()
+	steps := g.steps
+	g.mu.Unlock()
+	return fmt.Sprintf("returned longpoll steps=%d witness_size=%d log_size=%d err=%v", steps, size, g.size, err)
 }
